@@ -342,6 +342,36 @@ def check_arff(ctx, n):
         if not common: sig.append("variant:" + "+".join(sorted(variant)))
         ctx.fail(sig, "ARFF %r parsed to %r, written was %r" % (lines, got, exp), case)
 
+def check_arff_lines(ctx, n):
+    """dense ARFF data lines in the Weka dialect with one quote character: the model automaton, Python's csv module with ArffLineReader's dialect and ArffLineReader itself agree with the cells that were written"""
+    from coba.pipes.readers import ArffLineReader
+    rng = ctx.rng
+    reqs, metas = [], []
+    for _ in range(n):
+        q = rng.choice(["'", '"'])
+        ncol = rng.choice([1, 2, 3, 5])
+        cells = [gen_token(rng, 0.35) if rng.random() < 0.85 else rng.choice(["", "?", " ", "a b"]) for _ in range(ncol)]
+        def wq(v):
+            w = weka_quote(v)
+            return (q + w[1:-1] + q) if (w != v and w.startswith("'")) else w
+        line = ",".join(wq(c) for c in cells)
+        case = dict(line=line, quote=q, cells=cells)
+        ctx.count("arff-line:%d-cols" % ncol, repr(case), ncol >= 2)
+        dialect = dict(skipinitialspace=True, escapechar="\\", doublequote=False, quotechar=q, delimiter=",")
+        try: got_csv = next(csv.reader([line], **dialect))
+        except Exception as e: got_csv = "raises " + errname(e)
+        other = '"' if q == "'" else "'"
+        try:
+            lr = ArffLineReader(True, ncol); got_lr = list(lr.filter(line))
+        except Exception as e: got_lr = "raises " + errname(e)
+        if got_lr != cells and not (any(other in c for c in cells)):      # a cell holding the other quote character sends the reader to its fallback parser (covered by the table oracle)
+            ctx.fail(["arff-line", "reader"], "ArffLineReader read %r as %r, written was %r" % (line, got_lr, cells), case); continue
+        if got_csv != cells:
+            ctx.fail(["arff-line", "csv-dialect"], "csv.reader with the reader's dialect read %r as %r, written was %r" % (line, got_csv, cells), case); continue
+        reqs.append((12, [5, ord(q), [ord(c) for c in line]])); metas.append((case, [[ord(c) for c in x] for x in cells]))
+    for (case, exp), mo in zip(metas, ctx.get_model().batch(reqs)):
+        if mo != exp: ctx.disagree("C12.arff_parse", case, repr(exp)[:300], repr(mo)[:300])
+
 def run(ctx):
     tmpdir = tempfile.mkdtemp(prefix="c12_", dir=os.path.join(VERIF, ".work"))
     try:
@@ -350,6 +380,7 @@ def run(ctx):
         check_libsvm(ctx, ctx.n(200, 6000))
         check_csv(ctx, ctx.n(300, 10000))
         check_arff(ctx, ctx.n(400, 20000))
+        check_arff_lines(ctx, ctx.n(300, 8000))
     finally:
         shutil.rmtree(tmpdir, ignore_errors=True)
 
